@@ -1,7 +1,7 @@
 (* C12 — formatting an executable document and parsing it back.  Statements only. *)
 From GQL.model Require Import Base Utf8 Lexer Format.
 From GQL.model Require Import Ast Parser Prog ParseQuery.
-From GQL.proofs Require Import JsonRoundtrip QuoteRoundtrip NumberGrammar TypeRoundtrip ValueRoundtrip TokenStream ParseComplete Sizes FormatTokens FormatRoundtrip FormatFixpoint.
+From GQL.proofs Require Import JsonRoundtrip QuoteRoundtrip NumberGrammar TypeRoundtrip ValueRoundtrip TokenStream ParseComplete Sizes FormatTokens FormatRoundtrip FormatFixpoint NormWok.
 
 (* String values survive byte for byte: whatever valid UTF-8 text v a String/BlockString value
    holds, the text Value.String prints for it is read back by the lexer as one String token whose
@@ -98,7 +98,8 @@ Proof.
 Qed.
 
 (* Whole documents survive.  For every executable document q whose names are names and whose values
-   are values (doc_lok) and which is a document of the grammar (doc_wok, props/C05.v), every indent
+   are values (doc_lok) and which is a document of the grammar (doc_wok, props/C05.v; what printing forgets keeps it there:
+   norm_doc_wok), every indent
    string made of blanks and tabs, compact or not: the text FormatQueryDocument prints is parsed by
    parseQuery — the entry point as it is, with the fuel it gives itself — and the document it returns
    is q with positions erased, block strings read as strings and an absent alias read as the field name
@@ -107,18 +108,20 @@ Qed.
    are glued, none is split, whatever the padding state machine does) and C05's
    parseQuery_complete (any text with these tokens parses to that document). *)
 Theorem C12_documents_survive : forall d o q,
-  List.Forall ign_char (fo_indent o) -> d F_L1 = false -> doc_lok q -> doc_wok d (norm_doc q) ->
+  List.Forall ign_char (fo_indent o) -> d F_L1 = false -> doc_lok q -> doc_wok d q ->
   exists q', parseQuery d 0 (FormatQueryDocument o q) = POk q' /\ erase_qdoc q' = erase_qdoc (norm_doc q).
-Proof. exact format_parse_entry. Qed.
+Proof.
+  intros d o q Hi Hd Hl Hw. destruct (format_fixpoint' d o q Hi Hd Hl Hw) as [q' [E1 [E2 _]]]. exists q'. split; assumption.
+Qed.
 Print Assumptions C12_documents_survive.
 
 (* ... and formatting is a fixpoint: the document parsed back prints as the same text (printing looks
    neither at positions, nor at the String/BlockString distinction, nor at an absent alias). *)
 Theorem C12_formatting_is_a_fixpoint : forall d o q,
-  List.Forall ign_char (fo_indent o) -> d F_L1 = false -> doc_lok q -> doc_wok d (norm_doc q) ->
+  List.Forall ign_char (fo_indent o) -> d F_L1 = false -> doc_lok q -> doc_wok d q ->
   exists q', parseQuery d 0 (FormatQueryDocument o q) = POk q' /\ erase_qdoc q' = erase_qdoc (norm_doc q)
              /\ FormatQueryDocument o q' = FormatQueryDocument o q.
-Proof. exact format_fixpoint. Qed.
+Proof. exact format_fixpoint'. Qed.
 Print Assumptions C12_formatting_is_a_fixpoint.
 
 (* the lexical half on its own: what is printed is read as the tokens of the grammar *)
